@@ -147,6 +147,11 @@ static void bc_check(bc_rec *b, int final) {
 		targeted++;
 		execs += (size_t)b->exec_count[i];
 	}
+	if (final && b->rc == ESPIPE && execs > 0) {
+		/* ESPIPE is "not one message could be sent" */
+		sim_violation("bc-bad-errno", "broadcast %d (form %d flags %x): the call returned ESPIPE (nothing sent) although %zu callback(s) ran", b->id, b->form, b->flags, execs);
+		return;
+	}
 	if (b->form == F_CB || b->form == F_CB_ONE) {
 		if (b->rc == 0 && final && b->done_count != 1) {
 			sim_violation("bc-done-missing", "broadcast %d (form %d flags %x): call returned 0 but the completion callback ran %d times by quiescence", b->id, b->form, b->flags, b->done_count);
